@@ -31,7 +31,7 @@ def deco(f):
 
 KINDS = ['assign', 'print', 'print2', 'expr', 'printexpr', 'none', 'multi', 'compound', 'def', 'semicolon']
 # the richer statement grammar of the C01 program generator (C01, C18, C19, C20)
-MORE_KINDS = ['augassign', 'for', 'while', 'with', 'try', 'decodef', 'class', 'literal_comment', 'triple', 'triple_unprefixed', 'triple_blank',
+MORE_KINDS = ['augassign', 'for', 'while', 'with', 'try', 'decodef', 'class', 'literal_comment', 'triple', 'triple_unprefixed', 'triple_blank', 'triple_trailing_ws',
               'import', 'comment', 'async_await', 'async_for', 'async_with']
 ALL_KINDS = KINDS + MORE_KINDS
 
@@ -109,6 +109,12 @@ class Stmt:
             self.lines = ["s%d = t(%d) and '''first" % (k, k), '', "  third %d'''" % k, "print(len(s%d.split(chr(10))))" % k]
             self.starts = [0, 3]
             self.out = '3\n'
+        elif kind == 'triple_trailing_ws':
+            # blanks at the end of the lines of a multi-line string are part of its value
+            body = ['first  ', '  body %d   ' % k, "last"]
+            self.lines = ["s%d = t(%d) and '''" % (k, k) + body[0], body[1], body[2] + "'''", 'print(len(s%d))' % k]
+            self.starts = [0, 3]
+            self.out = '%d\n' % len('\n'.join(body))
         elif kind == 'import':
             self.lines = ['import json', 'j%d = json.dumps(t(%d))' % (k, k)]
             self.starts = [0, 1]
